@@ -21,10 +21,24 @@ RowText(b, r) ==      \* r = 0 is rank 8
 
 Border == " +-----------------+\n"
 
-PrintPos(b, s, mn) ==
-  ToString(mn) \o (IF s = 1 THEN "g" ELSE "s") \o "\n" \o Border
+\* move numbers beyond TLC's 32-bit integers are handled as three base-10^9 limbs <<high, middle, low>>
+Pad9(n) == CASE n < 10 -> "00000000" [] n < 100 -> "0000000" [] n < 1000 -> "000000" [] n < 10000 -> "00000"
+             [] n < 100000 -> "0000" [] n < 1000000 -> "000" [] n < 10000000 -> "00" [] n < 100000000 -> "0"
+             [] OTHER -> ""
+Pad(n) == Pad9(n) \o ToString(n)
+LimbText(m) == IF m[1] > 0 THEN ToString(m[1]) \o Pad(m[2]) \o Pad(m[3])
+               ELSE IF m[2] > 0 THEN ToString(m[2]) \o Pad(m[3]) ELSE ToString(m[3])
+LimbAdd(m, k) ==      \* k \in {0, 1}
+  IF k = 0 THEN m
+  ELSE IF m[3] < 999999999 THEN <<m[1], m[2], m[3] + 1>>
+  ELSE IF m[2] < 999999999 THEN <<m[1], m[2] + 1, 0>> ELSE <<m[1] + 1, 0, 0>>
+Limbs(n) == <<0, 0, n>>
+
+PrintPosT(b, s, mntext) ==
+  mntext \o (IF s = 1 THEN "g" ELSE "s") \o "\n" \o Border
     \o RowText(b, 0) \o RowText(b, 1) \o RowText(b, 2) \o RowText(b, 3)
     \o RowText(b, 4) \o RowText(b, 5) \o RowText(b, 6) \o RowText(b, 7)
     \o Border \o "   a b c d e f g h\n"
+PrintPos(b, s, mn) == PrintPosT(b, s, ToString(mn))
 
 =============================================================================
